@@ -250,6 +250,13 @@ def _list_literal_names(fn):
     for n in ast.walk(fn.node):
         if isinstance(n, ast.Call) and isinstance(n.func, ast.Attribute) and n.func.attr == 'join' and n.args and isinstance(n.args[0], ast.List):
             sep = n.func.value.value if isinstance(n.func.value, ast.Constant) else None
+            # the joined string is what the function returns - as it is, not lower-cased / stripped / sliced afterwards
+            rets = [r for r in walk_local(fn.node) if isinstance(r, ast.Return)]
+            for r in rets:
+                v = r.value
+                v = deref_at(fn.node, v) if isinstance(v, ast.Name) else v
+                if v is not n:
+                    return sep, [f'<the joined fields are post-processed: {src(r.value, 60)}>']
             return sep, [src(e) for e in n.args[0].elts]
     return None, None
 
